@@ -762,7 +762,11 @@ public:
       dom_var_alloc_t palloc(left._alloc, right._alloc);
 
       // Build up the mapping of right onto left, variable by variable.
-      // Assumption: the set of variables in left & right are common.
+      // A variable that is only tracked on the right is unconstrained
+      // on the left: give it a fresh term so that it is compared too.
+      for (auto p : right._var_map) {
+        left.term_of_var(p.first);
+      }
       for (auto p : left._var_map) {
         if (!left._ttbl.map_leq(right._ttbl, left.term_of_var(p.first),
                                 right.term_of_var(p.first), gen_map))
